@@ -67,6 +67,8 @@ structure Cls where
   autoDetect : Flag
   autoExc    : Flag
   cacheHash  : Flag
+  /-- `getstate_setstate=` -/
+  getstateSetstate : Flag
   ownHash    : OwnHash
   ownEq      : Bool
   ownNe      : Bool
@@ -354,6 +356,31 @@ def resolveEq : List Node → ERes
     else if n.cls.ownEq then .ident
     else resolveEq rest
 
+/-- How `copy.copy` / `copy.deepcopy` / `pickle` rebuild an instance of the last class. -/
+inductive CopyMode where
+  /-- through the `__getstate__`/`__setstate__` pair attrs generated for the class whose `__init__` runs:
+      the state is the fields; `__setstate__` stores them and then re-arms the hash cache -/
+  | state
+  /-- no generated pair anywhere and no slotted class: the default protocol copies `__dict__` -/
+  | dict
+  /-- a pair generated for a *base* resolves (explicit `getstate_setstate=False` below it), or a slotted
+      class opted out: fields are lost or the copy fails — C10's business, not exercised here -/
+  | unsupported
+  deriving DecidableEq, Repr, Inhabited
+
+/-- does this class get its own generated `__getstate__`/`__setstate__`: the flag if given, else
+    `slots or _inherits_generated_getstate(cls)` (no class body here defines the methods itself) -/
+def ownsState (n : Node) (inherits : Bool) : Bool :=
+  n.isAttrs &&
+  (match tri (argOf n.cls.api "getstate_setstate" n.cls.getstateSetstate) with
+   | some b => b
+   | Option.none => n.facts.slotsEff || inherits)
+
+/-- root-first: each node with "has its own generated state pair" -/
+def withState : Bool → List Node → List (Node × Bool)
+  | _, [] => []
+  | inh, n :: rest => (n, ownsState n inh) :: withState (inh || ownsState n inh) rest
+
 /-- facts about instances of the last class -/
 structure Layout where
   /-- some class on the MRO has a `_attrs_cached_hash` slot -/
@@ -363,8 +390,8 @@ structure Layout where
   /-- … written as `_inst_dict['_attrs_cached_hash'] = None` -/
   initDirect : Bool
   leafFrozen : Bool
-  /-- all attrs classes slotted (`some true`), none (`some false`), or mixed (`none`) -/
-  uniform    : Option Bool
+  /-- how copy / deepcopy / pickle rebuild an instance -/
+  copyMode   : CopyMode
   /-- the resolved `__setstate__` resets the cache -/
   stateReset : Bool
   hres       : HRes
@@ -382,8 +409,11 @@ def layoutOf (ns : List Node) : Layout :=
     initCache := (m.map (·.facts.cacheOn)).getD false,
     initDirect := (m.map (fun n => n.facts.frozenEff && !n.facts.slotsEff)).getD false,
     leafFrozen := (lf.head?.map (·.facts.frozenEff)).getD false,
-    uniform := if ats.all (·.facts.slotsEff) then some true
-               else if ats.all (fun n => !n.facts.slotsEff) then some false else Option.none,
+    copyMode :=
+      (let ws := withState false ns
+       match ws.reverse.find? (fun p => p.1.isAttrs) with
+       | some (_, true) => .state
+       | _ => if ws.any (fun p => p.2) || ats.any (fun n => n.facts.slotsEff) then .unsupported else .dict),
     stateReset := (m.map (·.facts.cacheOn)).getD false,
     hres := resolveHash lf,
     eres := resolveEq lf,
@@ -497,10 +527,12 @@ def hashOp (c : Case) (L : Layout) (insts : List Inst) (i : Nat) (alt : List Nat
 
 /-- state of a shallow copy / of a deep copy or unpickled object -/
 def copyInst (L : Layout) (deep : Bool) (x : Inst) : Inst :=
-  match L.uniform with
-  | some true =>
-    -- `__getstate__` leaves the cache out; `__setstate__` resets it when the class caches
-    { vals := x.vals, slot := if L.stateReset then .empty else .absent, dict := .absent }
+  match L.copyMode with
+  | .state =>
+    -- a new object; `__setstate__` stores the fields, then (if the class caches) sets the cache to None
+    -- with `object.__setattr__`
+    let y : Inst := { vals := x.vals, slot := .absent, dict := .absent }
+    if L.stateReset then writeCell L y .empty else y
   | _ =>
     -- `__dict__` is copied; `_CacheHashWrapper` reduces to None when deep-copied or pickled
     { vals := x.vals, slot := .absent,
